@@ -181,6 +181,8 @@ def expect(op, l, r, n, mode, prec=None):
             return e
         return Expect([signal])
     if op == 'div_rounded':
+        if n > 18 and not l.is_dec and not r.is_dec:
+            return None       # known finding D4b (int/int, n > 18): excluded from witness search, reported by its own obligations
         if n > 18:
             return Expect(['PANIC'])
         if r.c == 0:
@@ -221,6 +223,12 @@ def expect(op, l, r, n, mode, prec=None):
             return Expect([D(q, n)]) if in_i128(q) else Expect([sig])
         c = q * 10 ** (-n)
         return Expect([D(c, 0)]) if in_i128(c) else Expect([sig])
+    if op in ('rkyv_eq', 'rkyv_eq_dec', 'rkyv_dec_eq'):
+        return Expect(['B:%d' % (1 if l.val == r.val else 0)])
+    if op in ('rkyv_partial_cmp', 'rkyv_cmp', 'rkyv_partial_cmp_dec', 'rkyv_dec_partial_cmp'):
+        return Expect(['ORD:%d' % ((l.val > r.val) - (l.val < r.val))])
+    if op == 'rkyv_roundtrip':
+        return Expect([D(l.c, l.n)])
     if op == 'eq':
         return Expect(['B:%d' % (1 if l.val == r.val else 0)])
     if op in ('partial_cmp', 'cmp'):
@@ -382,7 +390,12 @@ def expect_from_str(s):
         # value 0 with an over-long fraction: the statement demands <= 18 fractional digits after the exponent
         return Expect([], desc='Err (more than 18 fractional digits)', pred=is_err_not_empty)
     if nfrac < 0:
-        coeff = coeff * 10 ** (-nfrac)
+        if digits == 0:
+            coeff = 0
+        elif -nfrac > 40:
+            return Expect([], desc='Err (coefficient beyond +-(2^127-1))', pred=is_err_not_empty)
+        else:
+            coeff = coeff * 10 ** (-nfrac)
         nfrac = 0
     if not in_coeff(coeff):
         return Expect([], desc='Err (coefficient beyond +-(2^127-1))', pred=is_err_not_empty)
